@@ -218,7 +218,10 @@ func c06ExpiredTick(tick func() int) int {
 	}
 }
 
-// c06KnownListed: a family that reaches a recorded defect of file.d is emitted only once known_findings.json lists it
+const lz4StrandedFinding = "C06-lz4-being-written-removed-unread"
+
+// c06KnownListed: a family that reaches a defect of file.d that is not repaired is emitted only once known_findings.json
+// lists its id (today: lz4StrandedFinding, gen_real.go 10d)
 func c06KnownListed(id string) bool {
 	if os.Getenv("C06_ASSUME_LISTED") != "" { // development aid
 		return true
@@ -235,7 +238,11 @@ func inodeOf(st os.FileInfo) uint64 {
 // ---- lsof stub -----------------------------------------------------------------------------------------------------
 // scenario of a case: 0 = there is no lsof in PATH (exec fails before any fork: the usual situation in a container);
 // stub scenarios (env C06_LSOF): 1 = only readers (file.d itself), 2 = a writer holds the file, 3 = lsof finds nobody (exit 1);
-// 4 = as 1, but the lz4 file lives in a directory named "www" (the path the stub prints contains the letter w)
+// 4 = as 1, but the lz4 file lives in a directory named "www" (the path the stub prints contains the letter w: before /repo
+// fix 353d84e any w in the answer was taken for write access and the worker left its jobs loop).
+// Scenarios with a history (the first pass is scenario 2: worker.go marks the job done without reading, "try again later"):
+// 5 = then the watcher's write notification resumes the job and a second pass finds only readers (1);
+// 6 = then a maintenance tick (remove_after off); 7 = then a maintenance tick with remove_after expired
 const c06LsofStub = `#!/bin/sh
 case "$C06_LSOF" in
 1) printf 'COMMAND  PID USER   FD   TYPE DEVICE SIZE/OFF    NODE NAME\nfile.d  4417 root    8r   REG   0,27       87 7256276 %s\n' "$1";;
@@ -345,7 +352,8 @@ func c06Frame(b []byte) []byte {
 	return buf.Bytes()
 }
 
-// case = (max cut (off ...) (#frame ...) bufsz lsof)   obs = ((emit ...) curOffset #tail shouldSkip)
+// case = (max cut (off ...) (#frame ...) bufsz lsof)   obs = ((emit ...) curOffset #tail shouldSkip done [result [gone]])
+// done = Job.isDone at the end; result = what the maintenance tick of scenario 6 | 7 returned; gone = the file is removed (7)
 func c06ExecLz4(which int, cs hx.Sx) hx.Sx {
 	it := hx.Items(cs)
 	max := int(hx.Int(it[0]))
@@ -383,9 +391,49 @@ func c06ExecLz4(which int, cs hx.Sx) hx.Sx {
 		}
 		defer c06ProviderOf(f.v).reset()
 		c06RealJob(f.v, path, "", c06OpContinue, false, offs)
-		c06WithLsof(scenario, func() { f.v.Round(bufsz) })
+		first := scenario
+		if scenario >= 5 {
+			first = 2
+		}
+		c06WithLsof(first, func() { f.v.Round(bufsz) })
+		g := c06GutsOf(f.v) // after c06RealJob: the job the real addJob made
+		var extra []hx.Sx
+		switch scenario {
+		case 5: // the writer is gone: a write notification (refreshFile: checkFileWasTruncated, tryResumeJobAndUnlock), then the pass
+			c06Notify(f.v, path, "")
+			c06WithLsof(1, func() { f.v.Round(bufsz) })
+		case 6, 7:
+			jp := reflect.ValueOf(f.v).Elem().FieldByName("jp").UnsafePointer()
+			tick := func() int { return c06MaintenanceJob(jp, g.job) }
+			var res int
+			if scenario == 7 {
+				c06ProviderOf(f.v).cfg.RemoveAfter_ = time.Hour // reset() puts it back
+				res = c06ExpiredTick(tick)
+			} else {
+				res = tick()
+			}
+			if res == c06MaintResumed { // the tick queued the job: the worker takes it, the writer is gone
+				select {
+				case j := <-g.ch:
+					if j != g.job {
+						panic("harness/c06: another job in the channel")
+					}
+				default:
+					panic("harness/c06: maintenance reported resumed but queued nothing")
+				}
+				c06WithLsof(1, func() { f.v.Round(bufsz) })
+			} else if len(g.ch) != 0 {
+				panic("harness/c06: maintenance queued a job without reporting resumed")
+			}
+			extra = append(extra, hx.I(res))
+			if scenario == 7 {
+				_, lerr := os.Lstat(path)
+				extra = append(extra, hx.Bool(lerr != nil))
+			}
+		}
 		cur, tail, skip, _ := f.v.State()
-		out = hx.L(hx.L(f.emits...), hx.Z(cur), hx.B(tail), hx.Bool(skip))
+		done := *(*bool)(fieldPtr(reflect.ValueOf(g.job).Elem(), "isDone"))
+		out = hx.L(append([]hx.Sx{hx.L(f.emits...), hx.Z(cur), hx.B(tail), hx.Bool(skip), hx.Bool(done)}, extra...)...)
 	})
 	if f != nil {
 		f.close()
